@@ -11,7 +11,7 @@ The model mirrors the Go representation:
     after resolving is exactly this tree.  That transparency is what the commit/reopen part of the
     correspondence harness checks, and what `ModelDb` is about.
   * dirty flags / cache generations are not modelled, except where they decide the *shape* of the
-    result (`tdelete` returns the node unchanged — no collapsing — when nothing was deleted).
+    result (`delete` returns the node unchanged — no collapsing — when nothing was deleted).
 
 Core Lean only (the driver links natively).  Functions are structurally recursive on the node so
 that proofs can unfold them.
@@ -50,13 +50,13 @@ def splitCommon : List Nib → List Nib → List Nib × List Nib × List Nib
     else ([], a :: as, b :: bs)
   | as, bs => ([], as, bs)
 
-/-- `t.tinsert(nil, prefix, key, node)`: the node itself for an empty key, else a short node. -/
+/-- `t.insert(nil, prefix, key, node)`: the node itself for an empty key, else a short node. -/
 def mkShort (k : List Nib) (n : Node) : Node :=
   match k with
   | [] => n
   | _ :: _ => .short k n
 
-/-- trie.go `tinsert` (the `value` argument is a node: the branch-out case re-inserts `n.Val`).
+/-- trie.go `insert` (the `value` argument is a node: the branch-out case re-inserts `n.Val`).
 Two places panic in Go and are totalised here (they are flagged by `tinsertPanics` and proved
 unreachable for keys produced by `keybytesToHex`, theorem `api_never_panics`):
 a value node met with a non-empty rest key (`default: panic("invalid node")`), and a key that ends
@@ -110,7 +110,7 @@ def tgetPanics : Node → List Nib → Bool
 /-- indices of the non-nil children, ascending -/
 def livePos (cs : Nib → Node) : List Nib := allNibs.filter fun i => !(cs i).isEmpty
 
-/-- The tail of the fullNode case of trie.go `tdelete`: reduce a full node with exactly one
+/-- The tail of the fullNode case of trie.go `delete`: reduce a full node with exactly one
 remaining child to a short node (merging with a short child, except under the terminator slot). -/
 def collapse (cs : Nib → Node) : Node :=
   match livePos cs with
@@ -122,7 +122,7 @@ def collapse (cs : Nib → Node) : Node :=
       | c => .short [pos] c
   | _ => .full cs
 
-/-- trie.go `tdelete`; `none` is Go's `dirty = false` (the caller keeps its node untouched). -/
+/-- trie.go `delete`; `none` is Go's `dirty = false` (the caller keeps its node untouched). -/
 def del : Node → List Nib → Option Node
   | .empty, _ => none
   | .value _, _ => some .empty
